@@ -107,7 +107,8 @@ class Report:
         cov = {
             'explanation': self.explanation,
             'obligations': n_ob,
-            'discharged': n_ok + len(known_hits),
+            'discharged': n_ok,
+            'known_finding_obligations': len(known_hits),
             'checker_cmd': './check %s --tier %s' % (self.prop, self.tier),
             'trusted_base': self.trusted,
             'evaluations': n_ob,
